@@ -1,12 +1,127 @@
 /-
-  Props.C15 — the theorems that decide property C15 (see DESIGN.md §7).
+  Props.C15 — pipe is sequential composition and sub-expressions are
+  referentially transparent (DESIGN.md §7, C15).
 -/
 import Props.Tables
+import Jmes.Interp
 namespace Jmes.Props
-open Jmes
+open Jmes Jmes.Interp
 
 theorem C15_generated_table_ok : TableOK Generated.table = true := generated_table_ok
 theorem C15_generated_sigs_ok : SigsOK Generated.functionTable Spec.functionTable = true := generated_sigs_ok
 theorem C15_generated_lex_ok : LexTablesOK Model.lexTables Spec.lexTables = true := generated_lex_ok
+
+variable {N : Type} [NumOps N]
+
+/-- `A | B` on `d` is `B` on the result of `A` on `d`; it is an error (or a
+    panic) exactly when one of the two steps is. -/
+theorem C15_pipe_is_composition (ft : List FnEntry) (a b : Node N) (d : Val N) :
+    eval ft (.pipe a b) d = (eval ft a d >>= fun v => eval ft b v) := by
+  simp only [eval]
+  cases eval ft a d <;> rfl
+
+theorem C15_pipe_value (ft : List FnEntry) (a b : Node N) (d v : Val N) (h : eval ft a d = .ok v) :
+    eval ft (.pipe a b) d = eval ft b v := by
+  simp only [eval, h]
+
+theorem C15_pipe_error_iff (ft : List FnEntry) (a b : Node N) (d : Val N) :
+    (∃ e, eval ft (.pipe a b) d = .err e) ↔
+      (∃ e, eval ft a d = .err e) ∨ (∃ v e, eval ft a d = .ok v ∧ eval ft b v = .err e) := by
+  simp only [eval]
+  cases h : eval ft a d with
+  | ok v => simp
+  | err e => simp
+  | panic p => simp
+
+/-- One-hole contexts whose hole is evaluated against the root document. -/
+inductive Ctx (N : Type) where
+  | hole
+  | cmpL (op : Cmp) (c : Ctx N) (r : Node N)
+  | cmpR (op : Cmp) (l : Node N) (c : Ctx N)
+  | orL (c : Ctx N) (r : Node N)
+  | orR (l : Node N) (c : Ctx N)
+  | andL (c : Ctx N) (r : Node N)
+  | andR (l : Node N) (c : Ctx N)
+  | not (c : Ctx N)
+  | pipeL (c : Ctx N) (r : Node N)
+  | subL (c : Ctx N) (r : Node N)
+  | indexExprL (c : Ctx N) (r : Node N)
+  | projL (c : Ctx N) (r : Node N)
+  | valueProjL (c : Ctx N) (r : Node N)
+  | filterL (c : Ctx N) (r cond : Node N)
+  | flatten (c : Ctx N)
+  | listAt (pre : List (Node N)) (c : Ctx N) (post : List (Node N))
+  | hashAt (pre : List (Bytes × Node N)) (k : Bytes) (c : Ctx N) (post : List (Bytes × Node N))
+  | argAt (name : Bytes) (pre : List (Bool × Node N)) (c : Ctx N) (post : List (Bool × Node N))
+
+def Ctx.fill : Ctx N → Node N → Node N
+  | .hole, e => e
+  | .cmpL op c r, e => .cmp op (c.fill e) r
+  | .cmpR op l c, e => .cmp op l (c.fill e)
+  | .orL c r, e => .or (c.fill e) r
+  | .orR l c, e => .or l (c.fill e)
+  | .andL c r, e => .and (c.fill e) r
+  | .andR l c, e => .and l (c.fill e)
+  | .not c, e => .not (c.fill e)
+  | .pipeL c r, e => .pipe (c.fill e) r
+  | .subL c r, e => .sub (c.fill e) r
+  | .indexExprL c r, e => .indexExpr (c.fill e) r
+  | .projL c r, e => .proj (c.fill e) r
+  | .valueProjL c r, e => .valueProj (c.fill e) r
+  | .filterL c r cond, e => .filterProj (c.fill e) r cond
+  | .flatten c, e => .flatten (c.fill e)
+  | .listAt pre c post, e => .msList (pre ++ c.fill e :: post)
+  | .hashAt pre k c post, e => .msHash (pre ++ (k, c.fill e) :: post)
+  | .argAt name pre c post, e => .call name (pre ++ (false, c.fill e) :: post)
+
+theorem evalList_congr (ft : List FnEntry) (pre post : List (Node N)) (x y : Node N) (d : Val N)
+    (h : eval ft x d = eval ft y d) : evalList ft (pre ++ x :: post) d = evalList ft (pre ++ y :: post) d := by
+  induction pre with
+  | nil => simp only [List.nil_append, evalList, h]
+  | cons p ps ih => simp only [List.cons_append, evalList, ih]
+
+theorem evalKVs_congr (ft : List FnEntry) (pre post : List (Bytes × Node N)) (k : Bytes) (x y : Node N) (d : Val N)
+    (h : eval ft x d = eval ft y d) : evalKVs ft (pre ++ (k, x) :: post) d = evalKVs ft (pre ++ (k, y) :: post) d := by
+  induction pre with
+  | nil => simp only [List.nil_append, evalKVs, h]
+  | cons p ps ih => obtain ⟨pk, pv⟩ := p; simp only [List.cons_append, evalKVs, ih]
+
+theorem evalArgs_congr (ft : List FnEntry) (pre post : List (Bool × Node N)) (x y : Node N) (d : Val N)
+    (h : eval ft x d = eval ft y d) :
+    evalArgs ft (pre ++ (false, x) :: post) d = evalArgs ft (pre ++ (false, y) :: post) d := by
+  induction pre with
+  | nil => simp only [List.nil_append, evalArgs, h]
+  | cons p ps ih =>
+    obtain ⟨pb, pv⟩ := p
+    cases pb <;> simp only [List.cons_append, evalArgs, ih]
+
+/-- Referential transparency: two sub-expressions with the same outcome on the
+    root document are interchangeable in every root context … -/
+theorem C15_context_congruence (ft : List FnEntry) (c : Ctx N) (e e' : Node N) (d : Val N)
+    (h : eval ft e d = eval ft e' d) : eval ft (c.fill e) d = eval ft (c.fill e') d := by
+  induction c with
+  | hole => exact h
+  | cmpL op c r ih => simp only [Ctx.fill, eval, ih]
+  | cmpR op l c ih => simp only [Ctx.fill, eval, ih]
+  | orL c r ih => simp only [Ctx.fill, eval, ih]
+  | orR l c ih => simp only [Ctx.fill, eval, ih]
+  | andL c r ih => simp only [Ctx.fill, eval, ih]
+  | andR l c ih => simp only [Ctx.fill, eval, ih]
+  | not c ih => simp only [Ctx.fill, eval, ih]
+  | pipeL c r ih => simp only [Ctx.fill, eval, ih]
+  | subL c r ih => simp only [Ctx.fill, eval, ih]
+  | indexExprL c r ih => simp only [Ctx.fill, eval, ih]
+  | projL c r ih => simp only [Ctx.fill, eval, ih]
+  | valueProjL c r ih => simp only [Ctx.fill, eval, ih]
+  | filterL c r cond ih => simp only [Ctx.fill, eval, ih]
+  | flatten c ih => simp only [Ctx.fill, eval, ih]
+  | listAt pre c post ih => simp only [Ctx.fill, eval, evalList_congr ft pre post _ _ d ih]
+  | hashAt pre k c post ih => simp only [Ctx.fill, eval, evalKVs_congr ft pre post k _ _ d ih]
+  | argAt name pre c post ih => simp only [Ctx.fill, eval, evalArgs_congr ft pre post _ _ d ih]
+
+/-- … in particular a sub-expression may be replaced by the literal of its value. -/
+theorem C15_substitute_literal (ft : List FnEntry) (c : Ctx N) (e : Node N) (d v : Val N)
+    (h : eval ft e d = .ok v) : eval ft (c.fill e) d = eval ft (c.fill (.literal v)) d :=
+  C15_context_congruence ft c e (.literal v) d (by simp only [h, eval])
 
 end Jmes.Props
